@@ -28,6 +28,18 @@ impl Kind for KB {
     const KIND: u8 = 2;
 }
 
+/// The pointee's plain data: nested so that projections of depth 1..3 have something to
+/// project (Payload -> Inner -> u64). All three numbers equal the object's unique value.
+#[derive(Clone, Copy, Debug, Default)]
+pub struct Inner {
+    pub val: u64,
+}
+#[derive(Clone, Copy, Debug, Default)]
+pub struct Payload {
+    pub val: u64,
+    pub inner: Inner,
+}
+
 pub const ST_FREE: u8 = 0;
 pub const ST_LIVE: u8 = 1;
 pub const ST_DEAD: u8 = 2;
@@ -39,7 +51,7 @@ pub struct Slot {
     pub uid: Cell<u32>,
     pub kind: Cell<u8>,
     pub cell: RaceCell,
-    pub val: Cell<u64>,
+    pub payload: std::cell::UnsafeCell<Payload>,
     pub idx: usize,
     pub panic_on_drop: Cell<bool>,
 }
@@ -156,7 +168,7 @@ impl<K: Kind> SimArc<K> {
                     uid: Cell::new(0),
                     kind: Cell::new(0),
                     cell: RaceCell::new(),
-                    val: Cell::new(0),
+                    payload: std::cell::UnsafeCell::new(Payload::default()),
                     idx,
                     panic_on_drop: Cell::new(false),
                 }));
@@ -180,7 +192,12 @@ impl<K: Kind> SimArc<K> {
             s.state.set(ST_LIVE);
             s.uid.set(uid);
             s.kind.set(K::KIND);
-            s.val.set(val);
+            unsafe {
+                *s.payload.get() = Payload {
+                    val,
+                    inner: Inner { val },
+                };
+            }
             s.panic_on_drop.set(false);
             s.cell.reset();
             addr as *const Slot
@@ -257,7 +274,23 @@ impl<K: Kind> SimArc<K> {
         if let Some(r) = s.cell.read("payload") {
             rt::fail("race", r);
         }
-        s.val.get()
+        unsafe { (*s.payload.get()).val }
+    }
+
+    /// Borrow the payload through the handle (liveness and race checked like any deref).
+    pub fn payload(&self) -> &Payload {
+        static DEAD: Payload = Payload {
+            val: u64::MAX,
+            inner: Inner { val: u64::MAX },
+        };
+        if !self.touch("deref") {
+            return &DEAD;
+        }
+        let s = self.slot();
+        if let Some(r) = s.cell.read("payload") {
+            rt::fail("race", r);
+        }
+        unsafe { &*s.payload.get() }
     }
 
     /// Identity without touching the object (harness bookkeeping only).
@@ -363,4 +396,16 @@ unsafe impl<K: Kind> RefCnt for SimArc<K> {
     unsafe fn from_ptr(ptr: *const Slot) -> Self {
         SimArc { ptr, _k: PhantomData }
     }
+}
+
+/// uid of the object whose (unique) payload value is `val`.
+pub fn uid_by_val(val: u64) -> u32 {
+    ARENA.with(|a| {
+        a.borrow()
+            .objs
+            .iter()
+            .position(|o| o.val == val)
+            .map(|i| i as u32 + 1)
+            .unwrap_or(0)
+    })
 }
